@@ -116,26 +116,9 @@ def bodylength_value(raw):
 
 
 def classify_decode(raw, res):
-    """known-finding class of an oracle breach of decode(raw) = res"""
-    if res[0] == 1:
-        # the classes are the inputs the ledger names, decided here from the bytes alone (Python's int() on latin-1 text):
-        # ValueError = a BodyLength / CheckSum value int() refuses; FIXMessageError = a field tag int() refuses
-        fields = frame_fields(raw)
-        if res[1] == 5:
-            return "D7-raises-ValueError" if any(t in ("9", "10") and not int_ok(v) for t, v in fields) else None
-        if res[1] == 4:
-            return "D7-raises-FIXMessageError" if any(not int_ok(t) for t, v in fields) else None
-        return {6: "D7-raises-AttributeError"}.get(res[1])
-    n = res[2]
-    if n < 0:
-        bl = bodylength_value(raw)
-        try:
-            if bl is not None and int(bl) < 0:
-                return "D8-negative-bodylength"
-        except ValueError:
-            pass
-    if n > len(raw):
-        return "D8-consumed-beyond-buffer"
+    """known-finding class of an oracle breach of decode(raw) = res: none is left - since the repairs of rounds 9 and 10
+    decode(silent=True) never raises and its consumed length is within 0..len(raw) (C10_no_raise, C10_consumed_bounds);
+    a raise or an out-of-range length is a plain violation"""
     return None
 
 
@@ -148,7 +131,8 @@ def accept_unsound(res):
     i = body.rfind(b"\x01")
     last = body[i + 1:]
     if not last.startswith(b"10="):
-        return ("a field follows the CheckSum field and is outside the sum", "D8-fields-after-checksum")
+        # was class D8-fields-after-checksum until the frame was made to end at its CheckSum field: now a plain violation
+        return ("a field follows the CheckSum field and is outside the sum", None)
     v = last[3:]
     try:
         ok = int(v.decode("latin-1")) == sum(r[:i + 1]) % 256     # the decoder reads the value as latin-1 TEXT
@@ -157,7 +141,7 @@ def accept_unsound(res):
     if not ok:
         return ("returned frame's trailing CheckSum %r does not match its bytes" % v, None)
     if not (len(v) == 3 and v.isdigit()):
-        return ("CheckSum value %r is not three digits" % v, "D8-checksum-field-lenient")
+        return ("CheckSum value %r is not three digits" % v, None)     # was class D8-checksum-field-lenient (repaired)
     return None
 
 
@@ -172,58 +156,42 @@ def oracle_decode(ctx, raw, res, what):
 
 
 def classify_accept(orig, kind, pos, mutated):
-    """single-byte corruption returned as a message: which known leniency made it pass?"""
-    ck = orig.rfind(b"\x0110=")
+    """single-byte corruption returned as a message: the one leniency left is that BodyLength is not verified, so a NUL
+    byte inserted or deleted inside a frame (which keeps the byte sum) goes unnoticed (pinned by test_decode_custom_msg_type)"""
     if kind == "ins" and mutated[pos] == 0 or kind == "del" and orig[pos] == 0:
         return "D8-nul-keeps-checksum"
-    if pos > ck + 3:
-        return "D8-checksum-field-lenient"
     return None
 
 
 def classify_followup(b, tail=(), missing=(), statuses=()):
-    """why a malformed piece b keeps later valid frames from being delivered: known causes only"""
-    if 1 in statuses:           # an exception was logged by the reader while these bytes were in its buffer
-        return "D7-stall-after-raise"
-    d = cc.impl_decode(b)
-    for _ in range(8):          # frames at the front that decode fine are not the culprit
-        if d[0] == 0 and d[1] and 0 < d[2] <= len(b):
+    """why a malformed piece b keeps later valid frames from being delivered: the one known cause left is a candidate that
+    declares more bytes than are available (the reader waits for them); raises, fragments, whole-buffer drops, length
+    mismatches and one-rejection-per-read were repaired (rounds 9 and 10) and are plain violations now"""
+    if 1 in statuses or 2 in statuses:
+        return None
+    i = b.find(b"8=FIX.")
+    if i < 0:
+        return None
+    # skip frames at the front that decode fine or are rejected with progress
+    for _ in range(16):
+        d = cc.impl_decode(b)
+        if d[0] == 0 and 0 < d[2] <= len(b):
             b = b[d[2]:]
-            d = cc.impl_decode(b)
         else:
             break
-    if d[0] == 1:
-        return "D7-stall-after-raise"
     i = b.find(b"8=FIX.")
     if i < 0:
         return None
     seg = b[i:]
-    j = seg.find(b"8=FIX.", 5)
-    if j > 0:
-        seg = seg[:j]
     fields = seg.split(b"\x01")
-    if not fields[-1]:
-        fields = fields[:-1]
-    if len(fields) < 3:
-        return "D8-fragment-stalls"
-    if (fields[0] != b"8=FIX.4.4" or not fields[1].startswith(b"9=") or any(b"=" not in f for f in fields)):
-        # the decoder answers these with "consumed = whole buffer": later frames in the same read go with it
-        return "D8-bad-frame-drops-buffer"
-    if fields[1].startswith(b"9="):
+    if len(fields) >= 3 and fields[0] == b"8=FIX.4.4" and fields[1].startswith(b"9="):
         try:
             declared = len(fields[0]) + len(fields[1]) + 9 + int(fields[1][2:])
         except ValueError:
             return None
-        if declared != len(seg):
-            avail = len(b) - i + sum(len(t) for t in tail)
-            if declared > avail:
-                # the reader waits for that many bytes: everything behind is held back until they arrive
-                return "D8-oversize-bodylength-waits"
-            # within the bytes available the damage is bounded: at most the next frame is lost
-            if len(missing) <= 1 and (not tail or tail[-1] not in missing or len(tail) == 1):
-                return "D8-declared-length-mismatch"
-            if declared <= 0:
-                return "D8-declared-length-mismatch"
+        avail = len(b) - i + sum(len(t) for t in tail)
+        if declared > avail:
+            return "D8-oversize-bodylength-waits"
     return None
 
 
@@ -258,7 +226,8 @@ def run(ctx):
         ctx.count(what)
         ctx.count("res-" + ("exc%s" % r[1] if r[0] == 1 else "msg" if r[1] else "none"))
         oracle_decode(ctx, raw, r, what)
-        if orig is not None and r[0] == 0 and r[1]:
+        if orig is not None and r[0] == 0 and r[1] and not (r[3] and bytes(r[3][0]) == orig):
+            # (a result whose raw frame IS the intact original means the mutated byte lay outside the frame: junk after it)
             ctx.fail({"bytes": raw.hex(), "kind": what, "pos": pos, "original": orig.hex()},
                      "single-byte corruption (%s at %d) of a valid frame was returned as a message" % (kind, pos),
                      classify_accept(orig, kind, pos, raw))
@@ -301,7 +270,7 @@ def search(ctx, cases):
         for (kind, pos, b) in mutations(rng, f, False):
             r = cc.impl_decode(b)
             oracle_decode(ctx, b, r, "single-" + kind)
-            if r[0] == 0 and r[1]:
+            if r[0] == 0 and r[1] and not (r[3] and bytes(r[3][0]) == f):
                 ctx.fail({"bytes": b.hex(), "kind": "single-" + kind, "pos": pos, "original": f.hex()},
                          "single-byte corruption returned as a message", classify_accept(f, kind, pos, b))
         if ctx.failures:
